@@ -420,6 +420,10 @@ def mk_op(letter, rng, nt, bo, tail):
         return dict(op='append', items=[dict(kind='numstr', value=rng.choice(['12', '3']), bytes=rng.random() < 0.3)])
     if letter == 'amask':    # an ndarray subclass
         return dict(op='append', items=[dict(nd_spec(rand_array(rng, nt, bo, (2,) + t)), kind='masked')])
+    if letter == 'atail':    # ONE row without the leading axis (rank one too low): not appendable to an N-D array
+        if not t:
+            return dict(op='append', items=[nd_spec(rand_array(rng, nt, bo, (1,)))])
+        return dict(op='append', items=[nd_spec(rand_array(rng, nt, bo, t))])
     if letter == 'a0d':      # a 0-d ndarray: np.concatenate refuses it (rank)
         return dict(op='append', items=[nd_spec(small_values(rng, (), own))])
     if letter == 'itbad':    # one good chunk, then one of the wrong shape: the first is kept
@@ -488,9 +492,9 @@ def mk_op(letter, rng, nt, bo, tail):
     raise ValueError(letter)
 
 
-ALPHABET = ['a0', 'a1', 'a2l', 'asc', 'aod', 'asw', 'astr', 'amask', 'a0d', 'abad', 'abad0', 'it2', 'it0', 'itl', 'itbad', 'it0d',
+ALPHABET = ['a0', 'a1', 'a2l', 'asc', 'aod', 'asw', 'astr', 'amask', 'atail', 'a0d', 'abad', 'abad0', 'it2', 'it0', 'itl', 'itbad', 'it0d',
             't-1', 't0', 't1', 'tbig', 't-big', 'tni', 'set', 'ro', 'mr', 'mrw', 'mbad', 'ms', 'mc']
-COMPACT = ['a1', 'aod', 'asw', 'amask', 'a0d', 'abad', 'abad0', 'it2', 'it0', 'itbad', 't-1', 't0', 't1', 'tbig', 't-big', 'tni',
+COMPACT = ['a1', 'aod', 'asw', 'amask', 'atail', 'a0d', 'abad', 'abad0', 'it2', 'it0', 'itbad', 't-1', 't0', 't1', 'tbig', 't-big', 'tni',
            'set', 'ro', 'mr', 'mbad']
 
 
